@@ -22,16 +22,18 @@ End StreeInd.
 Definition mapi_cat (f : path -> stree -> log) (p : path) : nat -> list stree -> log :=
   fix go i l := match l with [] => [] | c :: r => f (p ++ [i]) c ++ go (S i) r end.
 
-Fixpoint post_paths (p : path) (t : stree) : log :=
+Fixpoint post_paths (vt : bool) (p : path) (t : stree) {struct t} : log :=
   match t with
-  | Tr _ ch => mapi_cat post_paths p 0 ch ++ [p]
-  | Tok _ _ => [p]
+  | Tr _ ch => mapi_cat (post_paths vt) p 0 ch ++ [p]
+  | Tok _ _ => tok_log vt p
   | NoneV => []
   end.
 
 Section Proofs.
   Variable T : transformer.
-  Notation tr := (tr T).
+  Variable vt : bool.
+  Notation tr := (tr T vt).
+  Notation post_paths := (post_paths vt).
   Notation call_rule := (call_rule T).
   Notation call_token := (call_token T).
 
@@ -43,13 +45,13 @@ Section Proofs.
     rewrite Hc, IH. reflexivity.
   Qed.
 
-  Theorem rec_tc_spec t : forall p, rec_tc T p t = (tr t, post_paths p t).
+  Theorem rec_tc_spec t : forall p, rec_tc T vt p t = (tr t, post_paths p t).
   Proof.
     induction t as [ty v| |n ch IH] using stree_ind'; intros p; simpl; auto.
     rewrite (mapi_log_spec _ ch IH). reflexivity.
   Qed.
 
-  Theorem ipr_tc_spec t : forall p, ipr_tc T p t = (tr t, post_paths p t).
+  Theorem ipr_tc_spec t : forall p, ipr_tc T vt p t = (tr t, post_paths p t).
   Proof.
     induction t as [ty v| |n ch IH] using stree_ind'; intros p; simpl; auto.
     rewrite (mapi_log_spec _ ch IH). reflexivity.
@@ -102,14 +104,14 @@ Section Proofs.
   Qed.
 
   Lemma nr_loop2_spec t : forall p r stack lg,
-    nr_loop2 T (post_nodes p t ++ r) stack lg = nr_loop2 T r (tr t :: stack) (lg ++ post_paths p t).
+    nr_loop2 T vt (post_nodes p t ++ r) stack lg = nr_loop2 T vt r (tr t :: stack) (lg ++ post_paths p t).
   Proof.
     induction t as [ty v| |n ch IH] using stree_ind'; intros p r stack lg; simpl.
     - reflexivity.
     - rewrite app_nil_r. reflexivity.
     - assert (Hch : forall i r stack lg,
-        nr_loop2 T (mapi_nodes post_nodes p i ch ++ r) stack lg
-        = nr_loop2 T r (rev (map tr ch) ++ stack) (lg ++ mapi_cat post_paths p i ch)).
+        nr_loop2 T vt (mapi_nodes post_nodes p i ch ++ r) stack lg
+        = nr_loop2 T vt r (rev (map tr ch) ++ stack) (lg ++ mapi_cat post_paths p i ch)).
       { induction IH as [|c ch Hc _ IHch]; intros i r0 st0 lg0; simpl.
         - rewrite app_nil_r. reflexivity.
         - rewrite <- app_assoc, Hc, IHch. repeat rewrite <- app_assoc. reflexivity. }
@@ -123,13 +125,19 @@ Section Proofs.
       simpl. rewrite app_nil_r, rev_involutive. reflexivity.
   Qed.
 
-  Theorem transform_nr_spec t : transform_nr T t = Some (tr t, post_paths [] t).
+  Theorem transform_nr_spec t : transform_nr T vt t = Some (tr t, post_paths [] t).
   Proof.
     unfold transform_nr. rewrite nr_loop1_spec by (unfold total; simpl; lia).
     simpl. rewrite app_nil_r. unfold pn. simpl.
     rewrite (nr_loop2_spec t [] [] [] []). reflexivity.
   Qed.
 
+End Proofs.
+
+Section Embedded.
+  Variable T : transformer.
+  Notation tr := (tr T true).     (* token callbacks are installed as lexer callbacks: visit_tokens = True *)
+  Notation call_rule := (call_rule T).
   (* ---- embedded transformer = transforming afterwards ---------------------------------------- *)
   (* callbacks are attached to named (non-underscore) rules, aliases, template names, terminals *)
   Hypothesis Huser : forall n, starts_us n = true -> on_rule T n = None.
@@ -219,4 +227,4 @@ Section Proofs.
         * apply andb_true_iff in Hc. destruct Hc as [_ Hc]. apply String.eqb_eq in Hc.
           eapply shape_inline_name; eauto. rewrite Hc. auto.
   Qed.
-End Proofs.
+End Embedded.
